@@ -709,4 +709,167 @@ theorem rightRel_remarkAt_before (S : Schema) {u : Node} : ∀ (kids : List Node
           rw [splitRight_skip _ _ _ (by omega) (by simp; omega), splitRight_skip _ _ _ (by omega) (by simp; omega)]
           simp [hsz]
 
+
+/-- what re-marking the node `off` tokens behind the split position does to the right-hand split -/
+def RSplit.remark (u : Node) (off : Nat) : RSplit → RSplit
+  | .flat r => .flat (remarkAt r off u)
+  | .deep (.elem ty a m k) i r =>
+    if off + i < fsize k then .deep (.elem ty a m (remarkAt k (off + i) u)) i r
+    else .deep (.elem ty a m k) i (remarkAt r (off + i - fsize k - 1) u)
+  | .deep c i r => .deep c i r
+
+/-- where the re-marked node is found in the pieces of a right-hand split -/
+def RSplit.nodeAt (off : Nat) : RSplit → Res (Option Node)
+  | .flat r => nodeAtKids r off
+  | .deep (.elem _ _ _ k) i r =>
+    if off + i < fsize k then nodeAtKids k (off + i) else nodeAtKids r (off + i - fsize k - 1)
+  | .deep _ _ _ => .ok none
+
+theorem splitRight_remarkAt {u : Node} : ∀ (L : List Node) (t p : Nat) (n : Node) (rs : RSplit),
+    fnormKids L = true → t ≤ p → nodeAtKids L p = .ok (some n) → Remarked n u →
+    splitRight L t = some rs →
+    splitRight (remarkAt L p u) t = some (rs.remark u (p - t)) ∧ rs.nodeAt (p - t) = .ok (some n)
+  | [], t, p, n, rs, _, _, hat, _, _ => by
+    unfold nodeAtKids at hat
+    split at hat <;> simp at hat
+  | x :: xs, t, p, n, rs, hn, htp, hat, hre, hs => by
+    simp only [fnormKids_cons, Bool.and_eq_true] at hn
+    have hxpos := Node.size_pos_of_norm x hn.1
+    rw [splitRight_cons] at hs
+    by_cases ht0 : t = 0
+    · subst ht0
+      rw [if_pos rfl] at hs
+      simp only [Option.some.injEq] at hs
+      subst hs
+      simp only [Nat.sub_zero, RSplit.remark, RSplit.nodeAt]
+      refine ⟨?_, hat⟩
+      cases hh : remarkAt (x :: xs) p u with
+      | nil =>
+        unfold remarkAt at hh; rw [mapNodeAt_cons] at hh
+        split at hh
+        · simp at hh
+        · split at hh
+          · simp at hh
+          · split at hh <;> simp at hh
+      | cons y ys => rw [splitRight_cons, if_pos rfl]
+    rw [if_neg ht0] at hs
+    have hp0 : p ≠ 0 := by omega
+    by_cases hle : x.size ≤ t
+    · rw [if_pos hle] at hs
+      have hat' : nodeAtKids xs (p - x.size) = .ok (some n) := by
+        unfold nodeAtKids at hat; rw [if_neg hp0, if_pos (by omega)] at hat; exact hat
+      obtain ⟨ih1, ih2⟩ := splitRight_remarkAt xs (t - x.size) (p - x.size) n rs hn.2 (by omega) hat' hre hs
+      rw [show p - x.size - (t - x.size) = p - t by omega] at ih1 ih2
+      refine ⟨?_, ih2⟩
+      unfold remarkAt at ih1 ⊢
+      rw [mapNodeAt_cons, if_neg hp0, if_pos (by omega), splitRight_skip _ _ _ ht0 hle]
+      exact ih1
+    · rw [if_neg hle] at hs
+      cases x with
+      | text s m =>
+        simp only at hs
+        split at hs
+        · rename_i hok
+          simp only [Option.some.injEq] at hs
+          subst hs
+          simp only [Node.size, Nat.not_le] at hle hxpos
+          have hps : s.length ≤ p := by
+            apply Decidable.byContradiction
+            intro hlt
+            have : n = .text s m := by
+              unfold nodeAtKids at hat; rw [if_neg hp0, if_neg (by simp [Node.size]; omega)] at hat
+              simp at hat; exact hat.symm
+            subst this
+            rcases hre with ⟨_, _, _, _, _, _, h, _⟩ | ⟨_, _, _, _, _, h, _⟩ <;> cases h
+          have hat' : nodeAtKids xs (p - s.length) = .ok (some n) := by
+            unfold nodeAtKids at hat; rw [if_neg hp0, if_pos (by simp [Node.size]; omega)] at hat
+            simpa [Node.size] using hat
+          simp only [RSplit.remark, RSplit.nodeAt]
+          have hds : (Node.text (s.drop t) m).size = s.length - t := by simp [Node.size]
+          constructor
+          · unfold remarkAt
+            rw [mapNodeAt_cons, if_neg hp0, if_pos (by simp [Node.size]; omega), splitRight_cons, if_neg ht0,
+              if_neg (by simp [Node.size]; omega)]
+            simp only [hok, if_true, Option.some.injEq, RSplit.flat.injEq]
+            rw [mapNodeAt_cons, if_neg (by omega), if_pos (by rw [hds]; omega), hds]
+            simp only [Node.size]
+            congr 2; omega
+          · unfold nodeAtKids
+            rw [if_neg (by omega), if_pos (by rw [hds]; omega), hds]
+            rw [show p - t - (s.length - t) = p - s.length by omega]; exact hat'
+        · simp at hs
+      | leaf ty a m => simp at hs
+      | elem ty a m k =>
+        simp only [Option.some.injEq] at hs
+        subst hs
+        simp only [Node.size_elem, Nat.not_le] at hle
+        simp only [Node.norm_elem] at hn
+        simp only [RSplit.remark, RSplit.nodeAt]
+        rw [show p - t + (t - 1) = p - 1 by omega]
+        by_cases hin : p - 1 < fsize k
+        · rw [if_pos hin, if_pos hin]
+          have hat' : nodeAtKids k (p - 1) = .ok (some n) := by
+            unfold nodeAtKids at hat; rw [if_neg hp0, if_neg (by simp; omega)] at hat; exact hat
+          obtain ⟨hsz, _⟩ := mapNodeAt_spec k (p - 1) n hat' hre
+          refine ⟨?_, hat'⟩
+          unfold remarkAt at hsz ⊢
+          rw [mapNodeAt_cons, if_neg hp0, if_neg (by simp; omega), splitRight_cons, if_neg ht0,
+            if_neg (by simp [hsz]; omega)]
+        · rw [if_neg hin, if_neg hin]
+          have hps : 2 + fsize k ≤ p := by
+            apply Decidable.byContradiction
+            intro hlt
+            have hpe : p - 1 = fsize k := by omega
+            have hat' : nodeAtKids k (fsize k) = .ok (some n) := by
+              unfold nodeAtKids at hat; rw [if_neg hp0, if_neg (by simp; omega), hpe] at hat; exact hat
+            have := nodeAtKids_lt hat' hre.size_ne
+            omega
+          have hat' : nodeAtKids xs (p - (2 + fsize k)) = .ok (some n) := by
+            unfold nodeAtKids at hat; rw [if_neg hp0, if_pos (by simp; omega)] at hat
+            simpa using hat
+          rw [show p - 1 - fsize k - 1 = p - (2 + fsize k) by omega]
+          refine ⟨?_, hat'⟩
+          unfold remarkAt
+          rw [mapNodeAt_cons, if_neg hp0, if_pos (by simp; omega), splitRight_cons, if_neg ht0,
+            if_neg (by simp; omega)]
+          simp
+
+/-- **a right-hand relation survives re-marking the corresponding node on both sides** (the node lies to the right
+    of both positions, at the same distance) -/
+theorem rightRel_remark (S : Schema) {u : Node} {L' : List Node} {t' : Nat} {L : List Node} {t : Nat}
+    (h : RightRel S L' t' L t) : ∀ (p p' : Nat) (n n' : Node),
+    fnorm L = true → fnorm L' = true → t ≤ p → t' ≤ p' → p' - t' = p - t →
+    nodeAtKids L p = .ok (some n) → nodeAtKids L' p' = .ok (some n') → Remarked n u → Remarked n' u →
+    RightRel S (remarkAt L' p' u) t' (remarkAt L p u) t := by
+  induction h with
+  | @flat L' t' L t r h1 h2 =>
+    intro p p' n n' hn hn' htp htp' hoff hat hat' hre hre'
+    obtain ⟨e1, _⟩ := splitRight_remarkAt L' t' p' n' _ (fnormKids_of_fnorm hn') htp' hat' hre' h1
+    obtain ⟨e2, _⟩ := splitRight_remarkAt L t p n _ (fnormKids_of_fnorm hn) htp hat hre h2
+    rw [hoff] at e1
+    exact .flat e1 e2
+  | @deep L' t' L t ty' a' m' k' i' ty a m k i r h1 h2 h3 hrel ih =>
+    intro p p' n n' hn hn' htp htp' hoff hat hat' hre hre'
+    obtain ⟨e1, g1⟩ := splitRight_remarkAt L' t' p' n' _ (fnormKids_of_fnorm hn') htp' hat' hre' h1
+    obtain ⟨e2, g2⟩ := splitRight_remarkAt L t p n _ (fnormKids_of_fnorm hn) htp hat hre h2
+    rw [hoff] at e1 g1
+    obtain ⟨_, hcn'⟩ := splitRight_deep_fnorm L' t' _ i' r hn' h1
+    obtain ⟨_, hcn⟩ := splitRight_deep_fnorm L t _ i r hn h2
+    simp only [Node.norm_elem] at hcn hcn'
+    have hle := hrel.le
+    have hsz : fsize k' - i' = fsize k - i := by
+      have := congrArg List.length hrel.toks
+      simpa [ftoks_length] using this
+    simp only [RSplit.remark, RSplit.nodeAt] at e1 e2 g1 g2
+    by_cases hin : p - t + i < fsize k
+    · have hin' : p - t + i' < fsize k' := by omega
+      rw [if_pos hin] at e2 g2
+      rw [if_pos hin'] at e1 g1
+      exact .deep e1 e2 h3 (ih (p - t + i) (p - t + i') n n' hcn hcn' (by omega) (by omega) (by omega) g2 g1 hre hre')
+    · have hin' : ¬ p - t + i' < fsize k' := by omega
+      rw [if_neg hin] at e2
+      rw [if_neg hin'] at e1
+      rw [show p - t + i' - fsize k' - 1 = p - t + i - fsize k - 1 by omega] at e1
+      exact .deep e1 e2 h3 hrel
+
 end PM
